@@ -23,9 +23,9 @@ CLAIMED.update({
          "Trusts the harness tokenizer (written from spec section 2). Comment text is compared word-wise. 26 recorded findings (comment drop / reorder sites, wrap artefact, non-idempotence in presence of comments) are tolerated by exact signature; idempotence on inputs with comments is attributed to one coarse finding, see DESIGN.md section 7.",
          "DESIGN.md §4 C09"),
  "C14": ("exploration",
-         "property testing with adversarial-layout generator; validity predicate over every AST location plus ground-truth token positions from an independent tokenizer",
-         "For generated modules with tabs, CR, CRLF, blank lines, multi-line comments, non-ASCII text and long lines, every location of the parsed tree must lie inside the document, have start<=end, be enclosed by its parent, list siblings ordered and disjoint, names must spell exactly the name, construct boundaries must coincide with the expected delimiter tokens; syntax-error and checker diagnostic locations (incl. reference locations) must lie inside the document.",
-         "Trusts the harness tokenizer for ground-truth positions; columns are byte offsets. Locations returned by LSP queries are checked by the same predicate inside C11/C15/C16.",
+         "property testing with adversarial-layout generator; validity predicate over every AST location plus ground-truth token positions from an independent tokenizer; the same predicate plus name-spelling over every location returned by language-server queries (references, definition, hover, folding ranges) on generated programs, also after a position-displacing update",
+         "For generated modules with tabs, CR, CRLF, blank lines, multi-line comments, non-ASCII text and long lines, every location of the parsed tree must lie inside the document, have start<=end, be enclosed by its parent, list siblings ordered and disjoint, names must spell exactly the name, construct boundaries must coincide with the expected delimiter tokens; syntax-error and checker diagnostic locations (incl. reference locations) must lie inside the document. Part B: accepted multi-module programs and a sixth of the generated texts are loaded into a ServerState (half of them first with displaced text, then updated); find-references, go-to-definition and hover at up to 120 identifier tokens and the folding ranges must return locations inside the text the server holds for the named module, references must spell the queried name, definitions contain it, hover ranges contain the position, folding ranges start at a declaration keyword, and ranges of one answer nest or are disjoint.",
+         "Trusts the harness tokenizer for ground-truth positions; columns are byte offsets. Edit ranges (quick fixes, completion edits) are judged by C16's applier; which occurrences a reference query must return is C15's subject.",
          "DESIGN.md §4 C14"),
 })
 CLAIMED.update({
